@@ -1,5 +1,6 @@
 import FxVerif.Proofs.C01
 import FxVerif.Proofs.C01Gen
+import FxVerif.Proofs.C01R4
 /-!
 # C02 — an event takes effect only with a 66 % power quorum of distinct registered oracles
 
@@ -448,5 +449,110 @@ example : (greach wp restartDemo).lastObserved = 1 := by decide
 /-- the hypotheses of `one_gov_update_keeps_quorum_reachable` are satisfiable -/
 example : let s := greach wp (restartDemo.take 6)
     s.lastTotalPower = onlinePower s.oracles ∧ (step s (.gov [1, 2, 3] true)).2 = .ok := by decide
+
+
+/-! ## round 4 — the bridger index over restarts; who signs a claim TRANSACTION -/
+
+/-- the oracle registry is key-unique and the bridger index is consistent with it in EVERY state reached with any number of
+genesis export / import restarts (the import rebuilds the index from the exported records; consistency of the rebuilt index
+follows from key-uniqueness of the registry alone — `binv_roundTrip`) -/
+theorem bridger_index_consistent_g (p : Params) (ops : List GOp) :
+    ((greach p ops).oracles.map Prod.fst).Nodup ∧
+    ∀ b a, (greach p ops).byBridger.get b = some a → ∃ orc, (greach p ops).oracles.get a = some orc ∧ orc.bridger = b := by
+  have h := rinv_grun _ ops (rinv_init p)
+  exact ⟨h.ku, h.bi⟩
+
+/-- `voter_is_registered_bridger` over restarts: an accepted claim's bridger is THE bridger registered in the record of the
+online oracle whose vote is recorded — also after export / import -/
+theorem voter_is_registered_bridger_g (p : Params) (ops : List GOp) (w i n h : Nat) (k : Kind) (e : Nat)
+    (hok : (step (greach p ops) (.claim w i n h k e)).2 = .ok) :
+    ∃ a orc, (greach p ops).byBridger.get (voter w i) = some a ∧ (greach p ops).oracles.get a = some orc ∧
+      orc.online = true ∧ orc.bridger = voter w i := by
+  obtain ⟨a, orc, h1, h2, h3, _⟩ := vote_requires_online_bridger (greach p ops) w i n h k e hok
+  obtain ⟨orc', ho', hb'⟩ := (bridger_index_consistent_g p ops).2 _ _ h1
+  rw [h2] at ho'; cases ho'
+  exact ⟨a, orc, h1, h2, h3, hb'⟩
+
+/-- a restart reproduces the registry record for record (what the harness compares: field `or`) -/
+theorem genesis_reproduces_registry (p : Params) (ops : List GOp) :
+    (roundTrip (greach p ops)).oracles = (greach p ops).oracles :=
+  (roundTrip_registry _ (rinv_grun _ ops (rinv_init p)).ku).1
+
+/-- … and REPAIRS an inconsistent index: after the import the index is consistent whatever it was before, as long as the
+registry is key-unique (it is in every reachable state) -/
+theorem genesis_rebuilds_bridger_index (s : State) (hK : (s.oracles.map Prod.fst).Nodup) :
+    ∀ b a, (roundTrip s).byBridger.get b = some a → ∃ orc, (roundTrip s).oracles.get a = some orc ∧ orc.bridger = b :=
+  binv_roundTrip s hK
+
+/-- registered bridgers are unique: in every state reached with restarts, every oracle record's bridger is indexed to that very
+oracle (converse of the index invariant), so no two records share a bridger -/
+theorem bridger_unique_g (p : Params) (ops : List GOp) :
+    (∀ a orc, (greach p ops).oracles.get a = some orc → (greach p ops).byBridger.get orc.bridger = some a) ∧
+    (∀ a a' o o', (greach p ops).oracles.get a = some o → (greach p ops).oracles.get a' = some o' → o.bridger = o'.bridger → a = a') := by
+  have h := rinv2_grun _ ops (rinv2_init p)
+  exact ⟨h.ci, fun a a' o o' h1 h2 hb => cinv_inj h.ci h1 h2 hb⟩
+
+/-- a restart is TRANSPARENT for claim admission: after export / import the bridger index answers every look-up exactly as
+before (the store order may differ), the registry is the same record for record — so `checkBridgerIsOracle` accepts exactly
+the same bridgers for exactly the same oracles, in every state reached with any number of earlier restarts -/
+theorem genesis_reproduces_bridger_index (p : Params) (ops : List GOp) (b : Nat) :
+    (roundTrip (greach p ops)).byBridger.get b = (greach p ops).byBridger.get b ∧
+    (roundTrip (greach p ops)).oracles = (greach p ops).oracles := by
+  have h := rinv2_grun _ ops (rinv2_init p)
+  exact ⟨roundTrip_index _ h.ku h.bi h.ci b, (roundTrip_registry _ h.ku).1⟩
+
+/-- uniqueness of bridgers is needed for that: with two records of one bridger the rebuilt index keeps the LAST record's
+oracle where the live index may hold the first -/
+theorem genesis_index_needs_unique_bridgers :
+    let s : State := { oracles := [(1, ⟨101, 201, 0, true, 0⟩), (2, ⟨101, 202, 0, true, 0⟩)], byBridger := [(101, 1)] }
+    s.byBridger.get 101 = some 1 ∧ (roundTrip s).byBridger.get 101 = some 2 := by decide
+
+/-- key-uniqueness is needed: with two records under one oracle key the rebuilt index names a bridger that the (last-wins)
+registry does not have -/
+theorem genesis_index_needs_unique_keys :
+    let s : State := { oracles := [(1, ⟨101, 201, 0, true, 0⟩), (1, ⟨102, 201, 0, true, 0⟩)] }
+    (roundTrip s).byBridger.get 101 = some 1 ∧ ((roundTrip s).oracles.get 1).map Oracle.bridger = some 102 := by decide
+
+/-- what the source says about claims and transactions: `MsgClaim` is a registered message but does not unpack its wrapped
+claim (`UnpackInterfaces` absent), so after the wire round trip of a transaction the claim is nil and `ValidateBasic` fails;
+no claim type is a transaction message on its own.  Claims reach `MsgServer.Claim` only in-process on this tree. -/
+theorem claim_transaction_facts :
+    msgClaimRegisteredAsMsg = true ∧ msgClaimUnpacksInterfaces = false ∧ claimTxDeliverable = false ∧
+    directClaimMsgTypes = [] := by decide
+
+/-- FULL STRENGTH at the transaction level: whenever a signed `MsgClaim` TRANSACTION is accepted, the account whose
+signature it needed is the bridger whose oracle's vote is recorded.  Discharged from the regenerated facts: either no such
+transaction is deliverable (this tree) or `ValidateBasic` binds the two.  A change that makes claims deliverable without
+adding the binding check stops this proof (and the harness's `txclaim` stream then records the vote and reports it). -/
+theorem signer_is_voter_tx (s : State) (w i n h : Nat) (k : Kind) (hok : (txClaimStep s w i n h k).2 = .ok) :
+    requiredSigner w i = voter w i := by
+  have hf : claimTxDeliverable = false ∨ claimValidateBasicBindsSigner = true := by decide
+  rcases hf with hf | hf
+  · simp [txClaimStep, hf] at hok
+  · rcases txClaim_cases s w i n h k with e | e
+    · rw [e] at hok; cases hok
+    · rw [e] at hok
+      exact signer_is_voter_partial hf s w i n h k 0 (by simpa [step] using hok)
+
+/-- … and it is not vacuous in the other world: under the binding check an accepted transaction exists -/
+theorem signer_is_voter_tx_nonvacuous (hd : claimTxDeliverable = true) :
+    ∃ (s : State) (w i n h : Nat) (k : Kind), (txClaimStep s w i n h k).2 = .ok := by
+  refine ⟨{ oracles := [(1, ⟨102, 201, 0, true, 0⟩)], byBridger := [(102, 1)] }, 102, 102, 1, 0, .other, ?_⟩
+  revert hd; decide
+
+/-! ### non-vacuity -/
+
+/-- edit-bridger, unbond-free history with a restart: the index after the restart names the NEW bridger only -/
+def indexDemo : List GOp :=
+  let u : Nat := powerReduction
+  [ .op (.gov [1, 2] true), .op (.bond 1 101 201 (50 * u) true), .op (.bond 2 102 202 (50 * u) true),
+    .op (.editBridger 1 103), .genesis, .op (.claim 101 101 1 0 .other 1001), .op (.claim 103 103 1 0 .other 1001) ]
+
+example : (greach wp (indexDemo.take 5)).byBridger = [(103, 1), (102, 2)] := by decide
+example : (gstep (greach wp (indexDemo.take 5)) (.op (.claim 101 101 1 0 .other 1001))).2 = .noOracle := by decide
+example : (gstep (greach wp (indexDemo.take 6)) (.op (.claim 103 103 1 0 .other 1001))).2 = .ok := by decide
+/-- a corrupted index (bridger 999 → oracle 1) is repaired by the round trip -/
+example : let s : State := { oracles := [(1, ⟨101, 201, 0, true, 0⟩)], byBridger := [(999, 1)] }
+    (roundTrip s).byBridger = [(101, 1)] := by decide
 
 end FxVerif.Props.C02
